@@ -49,8 +49,10 @@ X86_VEC_TYPES = (11, 12, 13)
 
 
 class Gen:
-    def __init__(self, rng, arch, forms, ninst):
+    def __init__(self, rng, arch, forms, ninst, corpus=None):
         self.rng, self.arch, self.forms, self.ninst = rng, arch, forms, ninst
+        self.corpus = corpus          # [(inst, kinds, ops, ctx)] of calls the real encoder accepted in the probe pass
+        self.last_meta = None
         self.a64 = arch == "a64"
         self.labels = 0
         self.sections = 1
@@ -182,9 +184,10 @@ class Gen:
         return {"gp": gp, "vec": r.choice(X86_VEC_TYPES if r.random() < 0.5 else (11,)),
                 "msize": r.choice((None, None, 0, {2: 1, 4: 2, 5: 4, 6: 8}[gp]))}
 
-    def emit(self, emitter):
+    def emit(self, emitter, stream=None):
         r = self.rng
-        stream = r.random()
+        self.last_meta = None
+        stream = r.random() if stream is None else stream
         opts, extra, cmt = 0, "-", 0
         if r.random() < 0.25:
             bits = (0x2, 0x4, 0x10, 0x20, 0x40, 0x80, 0x100, 0x200, 0x400, 0x800, 0x1000, 0x2000, 0x4000, 0x8000, 0x10000, 0x20000, 0x40000,
@@ -216,11 +219,17 @@ class Gen:
                 else:
                     ops.append(self.operand(r.choice(kinds), ctx, r.random() < 0.5))
         else:              # streams A / V: database forms, mutated in 0..3 places
-            inst, name, kinds = r.choice(self.forms)
-            kinds = list(kinds)
-            ctx = self.ctx()
             nmut = 0 if stream < 0.5 else r.choice((1, 1, 2, 3))
-            ops = [self.operand(k, ctx, False) for k in kinds]
+            if self.corpus and r.random() < 0.85:
+                inst, kinds, ops, ctx = r.choice(self.corpus)
+                kinds, ops, ctx = list(kinds), list(ops), dict(ctx)
+            else:
+                inst, name, kinds = r.choice(self.forms)
+                kinds = list(kinds)
+                ctx = self.ctx()
+                ops = [self.operand(k, ctx, False) for k in kinds]
+            if nmut == 0:
+                self.last_meta = (inst, tuple(kinds), tuple(ops), dict(ctx))
             for _ in range(nmut):
                 m = r.random()
                 if ops and m < 0.45:        # id / field perturbation, kind kept
@@ -295,7 +304,36 @@ class Gen:
         return ["label", "emit %d 10 - 0 l%d" % (inst, lab), "embed %s" % ("90" * pad), "bind %d" % lab]
 
 
-def gen_sessions(rng, tier, forms_by_arch):
+def probe_corpus(h, rng, tier, forms_by_arch):
+    """pass 1: unmutated typed forms with plausible operands are offered to the real assemblers; the accepted calls are the corpus the
+    sessions replay and mutate (a naive generator is rejected ~85% of the time, which would leave the accepting paths unexplored)"""
+    corpus = {}
+    per_arch = 25 if tier == "quick" else 120
+    for arch in ("x64", "x86", "a64"):
+        forms, ninst = forms_by_arch["a64" if arch == "a64" else "x86"]
+        lines, metas = [], []
+        for _ in range(per_arch):
+            g = Gen(rng, arch, forms, ninst)
+            g.labels = 2
+            lines += ["new %s asm rec 1" % arch, "label", "label", "bind 0"]
+            metas += [None] * 4
+            for _ in range(250):
+                line = g.emit("asm", stream=0.3)
+                if " 0 - 0 " not in line:        # keep only calls without one-shot decoration
+                    line = re.sub(r"^(emit \d+) \S+ \S+ \S+", r"\1 0 - 0", line)
+                lines.append(line)
+                metas.append(g.last_meta)
+        impl, rc, err = vlib.run_lines([str(h)], lines, timeout=3000)
+        acc = []
+        if rc == 0 and len(impl) == len(lines):
+            for a, m in zip(impl, metas):
+                if m is not None and a.startswith("0 "):
+                    acc.append(m)
+        corpus[arch] = acc
+    return corpus
+
+
+def gen_sessions(rng, tier, forms_by_arch, corpus=None):
     n = 700 if tier == "quick" else 9000
     sessions = []
     for k in range(n):
@@ -305,7 +343,7 @@ def gen_sessions(rng, tier, forms_by_arch):
         validate = 1 if arch != "a64" else rng.randrange(2)
         fa = "a64" if arch == "a64" else "x86"
         forms, ninst = forms_by_arch[fa]
-        g = Gen(rng, arch, forms, ninst)
+        g = Gen(rng, arch, forms, ninst, (corpus or {}).get(arch))
         ops = ["new %s %s %s %d" % (arch, emitter, handler, validate)]
         for _ in range(rng.randrange(2, 4)):
             ops.append("label")
@@ -409,18 +447,25 @@ def model_line(sess_hdr, op, d):
         p = x["nf"].split(":")
         p[7] = str(int(p[7]) - int(d["Bkv"]["off"]))       # offset inside this instruction
         nf = ":".join(p)
-    return "%s acc %s %d %s" % (head, x.get("bytes", "-"), nrel, nf)
+    nsec = len(d["Akv"]["sec"].split(",")) - len(d["Bkv"]["sec"].split(","))
+    return "%s acc %s %d %s %d" % (head, x.get("bytes", "-"), nrel, nf, nsec)
 
 
-def model_expect(d):
+def model_expect(d, unknown_code=False):
     """what the model answer must equal, taken from the implementation's answer"""
     a = d["Akv"]
+    if unknown_code and d["ret"] != 0:
+        return "E O %s %s %s %s sec=%s lab=%s bnd=%s rel=%s fix=%s cur=%s off=%s bh=%s" % (
+            d["os"][0], d["os"][1], d["os"][2], d["os"][3], a["sec"], a["lab"], a["bnd"], a["rel"], a["fix"], a["cur"], a["off"], a["bh"])
     return "%d O %s %s %s %s sec=%s lab=%s bnd=%s rel=%s fix=%s cur=%s off=%s bh=%s" % (
         d["ret"], d["os"][0], d["os"][1], d["os"][2], d["os"][3], a["sec"], a["lab"], a["bnd"], a["rel"], a["fix"], a["cur"], a["off"], a["bh"])
 
 
-def model_got(m):
-    return re.sub(r" rep=[01]", "", m)
+def model_got(m, unknown_code=False):
+    m = re.sub(r" rep=[01]", "", m)
+    if unknown_code and not m.startswith("0 "):
+        m = "E " + m.split(" ", 1)[1]
+    return m
 
 
 # ------------------------------------------------------------------------------------------------------------------
@@ -449,7 +494,8 @@ def judge(h, sessions, names):
         i, tail = vlib.locate_abort([str(h)], flat, timeout=3000)
         res["abort"] = (i, tail)
         return res
-    mon_lines, mon_idx, mod_lines, mod_idx, mod_exp = [], [], [], [], []
+    mon_lines, mon_idx, mod_lines, mod_idx, mod_exp, mod_unk = [], [], [], [], [], []
+    tainted = set()
     hdr = None
     for i, (op, a) in enumerate(zip(flat, impl)):
         w = op.split()
@@ -459,17 +505,29 @@ def judge(h, sessions, names):
                 mod_lines.append("new %s %s" % (w[1], w[3]))
                 mod_idx.append(i)
                 mod_exp.append("ok")
+                mod_unk.append(False)
             continue
         d = parse_answer(a)
         if d is None:
             res["protocol"] = "unparsable harness answer for %r: %r" % (op, a[:200])
             return res
+        si = owner[i][0]
+        if si in tainted:
+            continue
+        if d["Akv"].get("taint") == "1":
+            # DESIGN.md defect #18 (property C03): a fixup created for a label bound in another section overwrote the label's offset
+            # with a heap pointer; everything after it depends on addresses.  Not C14's to judge: the session is cut here.
+            tainted.add(si)
+            continue
         mon_lines.append(monitor_line(hdr, op, d))
         mon_idx.append(i)
         if hdr[2] == "asm":
             mod_lines.append(model_line(hdr, op, d))
             mod_idx.append(i)
-            mod_exp.append(model_expect(d))
+            # new_label()/new_named_label() return a Label: without a handler the error code itself is not observable
+            unk = w[0] in ("label", "nlabel") and hdr[3] == "none"
+            mod_unk.append(unk)
+            mod_exp.append(model_expect(d, unk))
     mon, rc1, e1 = vlib.run_model("C14", mon_lines, timeout=3000)
     mod, rc2, e2 = vlib.run_model("C14", mod_lines, timeout=3000)
     if rc1 != 0 or rc2 != 0 or len(mon) != len(mon_lines) or len(mod) != len(mod_lines):
@@ -492,9 +550,10 @@ def judge(h, sessions, names):
         si = owner[i][0]
         if si in bad_sessions or si in seen:
             continue
-        if model_got(got) != mod_exp[k]:
+        if model_got(got, mod_unk[k]) != mod_exp[k]:
             seen.add(si)
-            res["diffs"].append((i, model_got(got), mod_exp[k]))
+            res["diffs"].append((i, model_got(got, mod_unk[k]), mod_exp[k]))
+    res["tainted"] = len(tainted)
     res["mon_n"] = len(mon_lines)
     res["mod_n"] = len(mod_lines)
     return res
@@ -550,7 +609,9 @@ def run(res):
         return
 
     h = vlib.build_harness("c14")
-    sessions = gen_sessions(rng, res.tier, forms_by_arch)
+    corpus = probe_corpus(h, rng, res.tier, forms_by_arch)
+    res.coverage["probe_corpus_accepted_forms"] = {a: len(c) for a, c in corpus.items()}
+    sessions = gen_sessions(rng, res.tier, forms_by_arch, corpus)
     # targeted sessions first (the classes the property names), so that they are always present
     x86_forms = forms_by_arch["x86"][0]
     mov = next(f[0] for f in x86_forms if f[1] == "mov" and f[2] == ("Gp", "Mem"))
@@ -622,6 +683,7 @@ def run(res):
     res.coverage["input_distribution"] = {"calls_by_arch/emitter/op:result (top 60)": top, "emit_accepted": accepted, "emit_rejected": rejected,
                                           "sessions": len(sessions)}
     res.coverage["monitored_answers"] = r["mon_n"]
+    res.coverage["sessions_cut_at_defect_18_C03"] = r["tainted"]
     res.coverage["traces_validated_against_impl"] = r["mod_n"]
     idxs = [i for i in (5, len(flat) // 3, len(flat) // 2, len(flat) - 2) if flat[i].split()[0] != "new"]
     res.add_samples([{"op": flat[i], "impl": impl[i][:300]} for i in idxs])
